@@ -456,6 +456,24 @@ void run_c19(vu::Rng& rng, bool thorough, int shard, int nshards) {
 
 }  // namespace
 
+#ifdef VERIF_FUZZ
+// libFuzzer entry (clang -fsanitize=fuzzer,address,undefined): the input is a byte stream a broker might send; every violation
+// of the C19 decoder oracles aborts, so that libFuzzer keeps the input as an artifact.
+extern "C" int LLVMFuzzerTestOneInput(const uint8_t* data, size_t size) {
+    static Guarded gp(1u << 20);
+    PROP = "C19";
+    guard = &gp;
+    size_t before = res.violations.size();
+    c19_one(std::string(reinterpret_cast<const char*>(data), size), "libfuzzer");
+    if (res.violations.size() != before) {
+        auto& v = res.violations.back();
+        fprintf(stderr, "FUZZ-VIOLATION key=%s what=%s\n", v.key.c_str(), v.what.c_str());
+        abort();
+    }
+    if (res.hashes.size() > 100000) res.hashes.clear();
+    return 0;
+}
+#else
 int main(int argc, char** argv) {
     vu::Args args(argc, argv);
     int shard, nshards; args.shard(shard, nshards);
@@ -466,7 +484,23 @@ int main(int argc, char** argv) {
     if (mode == "c17") run_c17(rng, thorough, shard, nshards);
     else if (mode == "c18") run_c18(rng, thorough, shard, nshards);
     else if (mode == "c19") run_c19(rng, thorough, shard, nshards);
+    else if (mode == "corpus") {
+        // seed corpus for the fuzz target: one well-formed packet of every server type in several shapes
+        ref::Gen g(rng); g.max_str = 20;
+        std::string dir = args.str("dir", ".");
+        int n = 0;
+        for (uint8_t t : SERVER_TYPES)
+            for (int k = 0; k < 6; ++k) {
+                ref::Packet p = g.server_packet(t, k == 0 ? (1ll << ref::Gen::prop_count(t)) - 1 : -1);
+                if (p.payload.size() > 64) p.payload.resize(64);
+                std::string b = ref::encode(p);
+                FILE* f = fopen((dir + "/seed" + std::to_string(n++)).c_str(), "wb");
+                if (f) { fwrite(b.data(), 1, b.size(), f); fclose(f); }
+            }
+        res.evaluations = n;
+    }
     else res.harness_error = "unknown mode";
     res.write(args.str("out", "/dev/stdout"));
     return res.violations.empty() ? 0 : 1;
 }
+#endif
